@@ -1,11 +1,24 @@
-"""parse.c eval / eval2 / eval3 / eval_truth / is_const_expr, type.c is_integer / is_flonum and the
-consumers of constant values -> Gen/ConstEvalGen.lean          (property C07)
+"""parse.c eval / eval2 / eval3 / eval_truth / eval_double / eval_double2 / is_const_expr, type.c is_integer / is_flonum
+and the consumers of constant values -> Gen/ConstEvalGen.lean          (property C07)
 
 The translation works on clang-14's *typed* AST (every implicit conversion is an explicit node), so each
 operator is emitted with the width and signedness the host compiler computes with:
 `(uint64_t)lhs / rhs` becomes `divU h (castS 64 v_lhs) (castS 64 v_rhs)`, `-(uint64_t)lhs` a total
 unsigned negation, `eval(l) + eval(r)` the *signed* `addS h` (host-undefined on overflow), the wrapper's
 `(int64_t)(uint8_t)val` the ladder `castU 64 (castS 8 v_val)`.  `error_tok` becomes `Fail.diag`.
+
+Floating host operations (`(float)lhs + (float)rhs`, `(uint64_t)eval_double(..)`, `lhs < eval_double(..)`, the implicit
+conversions clang inserts) become applications of the fields of `HostFp` (Model/HostFp.lean) at the width clang computed:
+`A.add32 (A.f80to32 v_lhs) (A.f80to32 v_rhs)` widened by `A.f32to80`.
+
+Evaluation order: C leaves the order of the operands of a binary operator unspecified.  The translator therefore REFUSES
+(ExtractError) an operator both of whose operands can produce a diagnostic (two calls of the folder in one expression):
+the generated model is left-to-right only because the source sequences the calls in separate statements.
+
+`eval2`, `eval3`, `eval_double`, `eval_double2` call each other on the SAME node; they are inlined into the two mutually
+recursive definitions `eval2` / `evalDouble`, whose recursive calls are all on children (structural recursion).  A chain of
+same-node calls that re-enters a function (eval3 -> eval_double -> eval -> eval2 -> eval3: taken iff is_flonum and
+is_integer both hold) is unbounded recursion in C and becomes `Fail.crash`.
 
 Only a small C subset is understood; anything else raises ExtractError (the check then reports the tie as
 broken).  The address-constant arms (ND_ADDR, ND_LABEL_VAL, ND_MEMBER, ND_VAR) are not given integer
@@ -22,11 +35,14 @@ INT_TYPES = {
     'signed char': (8, True), 'int8_t': (8, True), 'char': (8, True),
     'unsigned char': (8, False), 'uint8_t': (8, False),
 }
-FLOAT_TYPES = {'float', 'double', 'long double'}
+FLOAT_TYPES = {'float': 32, 'double': 64, 'long double': 80}
 NODE_FIELDS = {'kind': ('kind', ('enum', 'NodeKind')), 'ty': ('ty', ('ty',)), 'val': ('nval', ('i', 64, True)),
+               'fval': ('nfval', ('f', 80)),
                'lhs': ('lhs', ('node',)), 'rhs': ('rhs', ('node',)), 'cond': ('cond', ('node',)),
                'then': ('thn', ('node',)), 'els': ('els', ('node',)), 'tok': ('tok', ('tok',))}
 CHILDREN = {'lhs', 'rhs', 'cond', 'thn', 'els'}
+
+ALIGN_MSG = 'alignment must be a power of two no larger than 2^28'
 
 # address-constant arms of eval3: normalised source text -> Lean
 PINNED = {
@@ -34,18 +50,18 @@ PINNED = {
                 '.error (.unmodelled "address constant (&x)")'),
     'ND_LABEL_VAL': ('case ND_LABEL_VAL: if (!label) error_tok(node->tok, "not a compile-time constant"); '
                      '*label = &node->unique_label; return 0;',
-                     'if !label then .error (.diag "not a compile-time constant") else '
+                     'if !{L} then .error (.diag "not a compile-time constant") else '
                      '.error (.unmodelled "address constant (&&label)")'),
     'ND_MEMBER': ('case ND_MEMBER: if (!label) error_tok(node->tok, "not a compile-time constant"); '
                   'if (node->ty->kind != TY_ARRAY) error_tok(node->tok, "invalid initializer"); '
                   'return eval_rval(node->lhs, label) + node->member->offset;',
-                  'if !label then .error (.diag "not a compile-time constant") else '
+                  'if !{L} then .error (.diag "not a compile-time constant") else '
                   'if ty.kind != TypeKind.TY_ARRAY then .error (.diag "invalid initializer") else '
                   '.error (.unmodelled "address constant (member)")'),
     'ND_VAR': ('case ND_VAR: if (!label) error_tok(node->tok, "not a compile-time constant"); '
                'if (node->var->ty->kind != TY_ARRAY && node->var->ty->kind != TY_FUNC) error_tok(node->tok, "invalid initializer"); '
                '*label = &node->var->name; return 0;',
-               'if !label then .error (.diag "not a compile-time constant") else '
+               'if !{L} then .error (.diag "not a compile-time constant") else '
                '.error (.unmodelled "address constant (variable)")'),
 }
 
@@ -83,10 +99,15 @@ def cty_of(n):
     if q == 'char ***':
         return ('label',)
     if q in FLOAT_TYPES:
-        return ('float', q)
+        return ('f', FLOAT_TYPES[q])
     if q == 'void':
         return ('void',)
     raise ExtractError(f'type {q!r} is outside the translated subset')
+
+
+def is_float(n):
+    q = qual(n).replace('const ', '').strip()
+    return q in FLOAT_TYPES
 
 
 def strip(n, kinds=('ParenExpr', 'ConstantExpr'), casts=('LValueToRValue', 'NoOp')):
@@ -120,7 +141,7 @@ class Tr:
     """translator of one function body"""
 
     def __init__(self, gen, fname, node_param=None, node_mode='pattern', node_text='node', pure_fn=False,
-                 ty_param=None, self_call=None):
+                 ty_param=None, self_call=None, label_text='label', stack=()):
         self.g = gen
         self.fname = fname
         self.node_param = node_param      # name of the `Node *` parameter
@@ -128,9 +149,12 @@ class Tr:
         self.node_text = node_text
         self.ty_param = ty_param
         self.pure_fn = pure_fn
-        self.locals = {}
+        self.locals = {}                  # clang decl id -> (Lean name, cty)
+        self.names = set()
         self.n = 0
         self.self_call = self_call
+        self.label_text = label_text      # Lean text of `label != NULL` ('false' when inlined through eval(node))
+        self.stack = tuple(stack) + (fname,)   # functions being inlined on the matched node, outermost first
 
     def fresh(self):
         self.g.counter += 1
@@ -145,8 +169,13 @@ class Tr:
         return V(t, cty, list(binds or []) + [(t, mtext)])
 
     def mbind(self, vals, f):
-        """combine operands left to right; f maps their pure texts to a V"""
+        """combine operands left to right; f maps their pure texts to a V.  C does not sequence the operands of an
+        operator: if more than one of them is effectful (can end in a diagnostic) the model would have to pick an order."""
         binds = []
+        if sum(1 for v in vals if v.binds) > 1:
+            raise ExtractError(f'{self.fname}: two operands of one operator both call the folder: C leaves their order of '
+                               'evaluation unspecified, so which of two diagnostics is reported depends on the host compiler '
+                               '(evaluate the left operand in a statement of its own)')
         for v in vals:
             binds += v.binds
         r = f([v.text for v in vals])
@@ -257,20 +286,27 @@ class Tr:
             return self.tr_cond(inner)
         if ck == 'FloatingToIntegral':
             dst = cty_of(e)
-            x = self.float_call(inner)
-            if dst != ('i', 64, True) or x is None:
-                raise ExtractError('floating -> integer conversion of an unexpected shape')
-            return self.mon(f'(fp.toI64 {x})', dst)
+            src = self.tr(inner)
+            if src.cty != ('f', 80) or dst not in (('i', 64, True), ('i', 64, False)):
+                raise ExtractError(f'floating -> integer conversion {src.cty} -> {dst} is outside the translated subset')
+            fn = 'cvtI64' if dst[2] else 'cvtU64'
+            return self.mbind([src], lambda a: self.mon(f'({fn} h A {a[0]})', dst))
+        if ck == 'FloatingCast':
+            dst = cty_of(e)
+            src = self.tr(inner)
+            if src.cty[0] != 'f' or dst[0] != 'f':
+                raise ExtractError(f'FloatingCast {src.cty} -> {dst}')
+            if src.cty == dst:
+                return src
+            return self.mbind([src], lambda a: V(f'(A.f{src.cty[1]}to{dst[1]} {a[0]})', dst))
+        if ck == 'IntegralToFloating':
+            dst = cty_of(e)
+            src = self.tr(inner)
+            if dst != ('f', 80) or src.cty not in (('i', 64, True), ('i', 64, False), ('i', 32, True)):
+                raise ExtractError(f'integer -> floating conversion {src.cty} -> {dst} is outside the translated subset')
+            fn = ('i' if src.cty[2] else 'u') + str(src.cty[1]) + 'to80'
+            return self.mbind([src], lambda a: V(f'(A.{fn} {a[0]})', dst))
         raise ExtractError(f'{self.fname}: cast kind {ck} is outside the translated subset')
-
-    def float_call(self, e):
-        """eval_double(X) -> Lean text of X, else None"""
-        e = strip(e)
-        if e['kind'] == 'CallExpr' and callee(e) == 'eval_double' and len(e['inner']) == 2:
-            x = self.tr(e['inner'][1])
-            if x.cty == ('node',) and x.pure:
-                return x.text
-        return None
 
     def tr_ref(self, e):
         d = e['referencedDecl']
@@ -287,12 +323,12 @@ class Tr:
             if name == self.ty_param:
                 return V('ty', ('ty',))
             if name == 'label':
-                return V('label', ('label',))
+                return V(self.label_text, ('label',))
             raise ExtractError(f'{self.fname}: parameter {name}')
         if d['kind'] == 'VarDecl':
-            if name not in self.locals:
+            if d['id'] not in self.locals:
                 raise ExtractError(f'{self.fname}: variable {name} is not a local of the translated function')
-            return V('v_' + name, self.locals[name])
+            return V(*self.locals[d['id']])
         raise ExtractError(f'reference to {d["kind"]} {name}')
 
     def tr_member(self, e):
@@ -329,6 +365,8 @@ class Tr:
             return self.mbind([r], lambda a: V(f'(b2i {a[0]})', ('i', 32, True)))
         a = self.tr(e['inner'][0])
         c = cty_of(e)
+        if a.cty[0] == 'f' and c == a.cty and op == '-':
+            return self.mbind([a], lambda x: V(f'(A.neg{c[1]} {x[0]})', c))
         if a.cty[0] != 'i' or c != a.cty:
             raise ExtractError(f'unary {op} on {a.cty} giving {c}')
         if op == '-':
@@ -347,6 +385,11 @@ class Tr:
         l, r = e['inner']
         a, b = self.tr(l), self.tr(r)
         c = cty_of(e)
+        if c[0] == 'f':
+            if a.cty != c or b.cty != c or op not in ('+', '-', '*', '/'):
+                raise ExtractError(f'floating binary {op}: operand types {a.cty},{b.cty}, result {c}')
+            fn = {'+': 'add', '-': 'sub', '*': 'mul', '/': 'div'}[op] + str(c[1])
+            return self.mbind([a, b], lambda x: V(f'(A.{fn} {x[0]} {x[1]})', c))
         if c[0] != 'i' or a.cty[0] != 'i' or b.cty[0] != 'i':
             raise ExtractError(f'binary {op} on {a.cty}, {b.cty}')
         if op in ('<<', '>>'):
@@ -380,6 +423,12 @@ class Tr:
             elif e['kind'] == 'ImplicitCastExpr' and e.get('castKind') == 'IntegralCast' \
                     and qual(e['inner'][0]) in ('bool', '_Bool'):
                 e = e['inner'][0]
+            elif e['kind'] == 'ImplicitCastExpr' and e.get('castKind') == 'FloatingToBoolean':
+                # C11 6.3.1.2: the result is 0 if the value compares equal to 0
+                v = self.tr(e['inner'][0])
+                if v.cty != ('f', 80):
+                    raise ExtractError(f'truth value of {v.cty}')
+                return self.mbind([v], lambda a: V(f'(!(A.eq80 {a[0]} (A.i32to80 (0#32))))', ('bool',)))
             else:
                 break
         k = e['kind']
@@ -406,20 +455,27 @@ class Tr:
             return v                      # non-NULL
         if v.cty[0] == 'i':
             return self.mbind([v], lambda a: V(f'({a[0]} != 0)', ('bool',)))
+        if v.cty == ('f', 80):
+            # C11 6.5.15p4 / 6.8.4.1p2: the operand is compared with 0
+            return self.mbind([v], lambda a: V(f'(!(A.eq80 {a[0]} (A.i32to80 (0#32))))', ('bool',)))
         raise ExtractError(f'{self.fname}: truth value of {v.cty}')
 
     def tr_compare(self, e):
         op = e['opcode']
         l, r = e['inner']
-        # floating comparisons are abstract
-        fl, fr = self.float_call(l), self.float_call(r)
-        if fl is not None:
-            if fr is not None:
-                return self.mon(f'(fp.cmp "{op}" {fl} {fr})', ('bool',))
-            z = strip(r, casts=('LValueToRValue', 'NoOp', 'IntegralToFloating'))
-            if op == '!=' and z['kind'] == 'IntegerLiteral' and z['value'] == '0':
-                return self.mon(f'(fp.neZero {fl})', ('bool',))
-            raise ExtractError('floating comparison of an unexpected shape')
+        # floating comparisons: the host's quiet comparison of two long doubles
+        if is_float(l) or is_float(r):
+            a, b = self.tr(l), self.tr(r)
+            if a.cty != ('f', 80) or b.cty != ('f', 80):
+                raise ExtractError(f'floating comparison of {a.cty} with {b.cty}')
+            if op == '==':
+                return self.mbind([a, b], lambda x: V(f'(A.eq80 {x[0]} {x[1]})', ('bool',)))
+            if op == '!=':
+                return self.mbind([a, b], lambda x: V(f'(!(A.eq80 {x[0]} {x[1]}))', ('bool',)))
+            fn = {'<': 'lt80', '<=': 'le80', '>': 'lt80', '>=': 'le80'}[op]
+            if op in ('<', '<='):
+                return self.mbind([a, b], lambda x: V(f'(A.{fn} {x[0]} {x[1]})', ('bool',)))
+            return self.mbind([a, b], lambda x: V(f'(A.{fn} {x[1]} {x[0]})', ('bool',)))
         # enum comparisons (both sides converted to unsigned int by clang)
         sl = strip(l, casts=('LValueToRValue', 'NoOp', 'IntegralCast'))
         sr = strip(r, casts=('LValueToRValue', 'NoOp', 'IntegralCast'))
@@ -483,6 +539,10 @@ class Tr:
         if self.node_mode == 'pattern' and x not in CHILDREN:
             raise ExtractError(f'{self.fname}: recursive call on {x}, not on a child of the node')
 
+    def same_node(self, x):
+        """is the Lean text x the node this function body is matched on (pattern mode)?"""
+        return self.node_mode == 'pattern' and x == self.node_text
+
     def tr_call(self, e):
         name = callee(e)
         args = e['inner'][1:]
@@ -490,28 +550,45 @@ class Tr:
         if name == 'eval' and len(args) == 1:
             g.need_eval_wrapper()
             def f(x):
+                if self.same_node(x):
+                    # eval(node) = eval2(node, NULL) on the matched node: inlined
+                    return self.mon('(' + g.inline('eval2', self.stack, 'false') + ')', ('i', 64, True))
                 self.rec_ok(x)
-                return self.mon(f'(eval2 h fp {x} false)', ('i', 64, True))
+                return self.mon(f'(eval2 h A {x} false)', ('i', 64, True))
             return self.node_arg(args[0], f)
         if name == 'eval2' and len(args) == 2:
             lab = self.tr(args[1])
             if lab.cty != ('label',) or not lab.pure:
                 raise ExtractError('eval2: label argument')
             def f(x):
+                if self.same_node(x):
+                    raise ExtractError(f'{self.fname}: eval2 called on the node itself')
                 self.rec_ok(x)
-                return self.mon(f'(eval2 h fp {x} {lab.text})', ('i', 64, True))
+                return self.mon(f'(eval2 h A {x} {lab.text})', ('i', 64, True))
             return self.node_arg(args[0], f)
         if name == 'eval3' and len(args) == 2:
             a, lab = self.tr(args[0]), self.tr(args[1])
-            if self.fname != 'eval2' or a.text != 'node' or lab.text != 'label':
+            if self.fname != 'eval2' or not self.same_node(a.text) or lab.text != self.label_text:
                 raise ExtractError('eval3 is only understood as eval3(node, label) inside eval2')
-            return self.mon('(' + g.eval3_body() + ')', ('i', 64, True))
+            return self.mon('(' + g.inline('eval3', self.stack, self.label_text) + ')', ('i', 64, True))
+        if name == 'eval_double' and len(args) == 1:
+            def f(x):
+                if self.same_node(x):
+                    return self.mon('(' + g.inline('eval_double', self.stack, self.label_text) + ')', ('f', 80))
+                self.rec_ok(x)
+                return self.mon(f'(evalDouble h A {x})', ('f', 80))
+            return self.node_arg(args[0], f)
+        if name == 'eval_double2' and len(args) == 1:
+            a = self.tr(args[0])
+            if self.fname != 'eval_double' or not self.same_node(a.text):
+                raise ExtractError('eval_double2 is only understood as eval_double2(node) inside eval_double')
+            return self.mon('(' + g.inline('eval_double2', self.stack, self.label_text) + ')', ('f', 80))
         if name == 'eval_truth' and len(args) == 1:
             return self.node_arg(args[0], lambda x: self.mon('(' + g.eval_truth_body(x) + ')', ('bool',)))
         if name == 'is_const_expr' and len(args) == 1:
             def f(x):
                 self.rec_ok(x)
-                return self.mon(f'(isConstExpr h fp {x})', ('bool',))
+                return self.mon(f'(isConstExpr h A {x})', ('bool',))
             return self.node_arg(args[0], f)
         if name in ('is_integer', 'is_flonum') and len(args) == 1:
             t = self.tr(args[0])
@@ -574,8 +651,13 @@ class Tr:
             v = self.tr(d['inner'][0])
             if v.cty != c:
                 raise ExtractError(f'initialiser of {d["name"]} has type {v.cty}, variable {c}')
-            self.locals[d['name']] = c
             nm = 'v_' + d['name']
+            k2 = 1
+            while nm in self.names:           # a second declaration of the same name (another block)
+                k2 += 1
+                nm = f'v_{d["name"]}_{k2}'
+            self.names.add(nm)
+            self.locals[d['id']] = (nm, c)
             binds = list(v.binds)
             if binds and binds[-1][0] == v.text:
                 binds[-1] = (nm, binds[-1][1])
@@ -612,9 +694,11 @@ class Tr:
                     labels.append(cur['inner'][0])
                     begin = cur['range']['begin']['offset']
                     cur = cur['inner'][-1]
-                out.append({'labels': labels, 'stmts': [cur], 'begin': s['range']['begin']['offset']})
+                out.append({'labels': labels, 'stmts': [cur], 'begin': s['range']['begin'].get('offset')})
             elif s['kind'] == 'DefaultStmt':
-                raise ExtractError('default: label')
+                if s is not body['inner'][-1]:
+                    raise ExtractError('default: label that is not the last arm')
+                out.append({'labels': None, 'stmts': [s['inner'][-1]], 'begin': s['range']['begin'].get('offset')})
             else:
                 if not out:
                     raise ExtractError('statement before the first case label')
@@ -628,7 +712,7 @@ class Tr:
         if body['kind'] != 'CompoundStmt':
             raise ExtractError('switch body')
         arms = self.arms(body)
-        end = body['range']['end']['offset']
+        end = body['range']['end'].get('offset')
         sc = strip(cond, casts=('LValueToRValue', 'NoOp', 'IntegralCast'))
         ev = self.try_enum(sc)
         if ev is not None:
@@ -636,7 +720,11 @@ class Tr:
                 raise ExtractError('switch on an effectful enum expression')
             out = f'(match {ev.text} with'
             seen = set()
+            default = None
+            if arms and arms[-1]['labels'] is None:
+                default = arms.pop()
             for i, arm in enumerate(arms):
+                saved_names = set(self.names)
                 names = []
                 for l in arm['labels']:
                     r = strip(l, casts=('LValueToRValue', 'NoOp', 'IntegralCast'))
@@ -647,21 +735,27 @@ class Tr:
                     if nme in seen:
                         raise ExtractError(f'duplicate case {nme}')
                     seen.add(nme)
-                nxt = arms[i + 1]['begin'] if i + 1 < len(arms) else end
+                nxt = arms[i + 1]['begin'] if i + 1 < len(arms) else (default['begin'] if default else end)
                 pinned = [nme for nme in names if nme in PINNED and self.fname == 'eval3']
                 if pinned:
                     if len(names) != 1:
                         raise ExtractError('address-constant arm shares its body')
+                    if arm['begin'] is None or nxt is None:
+                        raise ExtractError('address-constant arm inside a macro expansion')
                     src = re.sub(r'\s+', ' ', strip_comments(self.g.srcb[arm['begin']:nxt].decode('utf-8', 'replace'))).strip()
                     want, lean = PINNED[names[0]]
                     if src != want:
                         raise ExtractError(f'eval3 arm {names[0]} changed: {src!r}')
-                    txt = lean
+                    txt = lean.replace('{L}', self.label_text)
                 else:
                     txt = self.block(arm['stmts'], None, ind + 2)
                 pats = ' | '.join('.' + nme for nme in names)
                 out += f'\n{pad}| {pats} =>\n{pad}    {txt}'
-            out += f'\n{pad}| _ =>\n{pad}    ' + self.block([], after, ind + 2) + ')'
+                self.names = saved_names
+            if default is not None:
+                out += f'\n{pad}| _ =>\n{pad}    ' + self.block(default['stmts'], None, ind + 2) + ')'
+            else:
+                out += f'\n{pad}| _ =>\n{pad}    ' + self.block([], after, ind + 2) + ')'
             return out
         v = self.tr(cond)
         if v.cty[0] != 'i' or not v.pure:
@@ -669,6 +763,8 @@ class Tr:
         out = ''
         for arm in arms:
             conds = []
+            if arm['labels'] is None:
+                raise ExtractError('default: in a switch on an integer')
             for l in arm['labels']:
                 r = strip(l, casts=('LValueToRValue', 'NoOp', 'IntegralCast'))
                 if r['kind'] != 'IntegerLiteral':
@@ -693,7 +789,6 @@ class Gen:
         self.srcb = open(os.path.join(repo, 'parse.c'), 'rb').read()      # clang offsets are byte offsets
         self.counter = 0
         self.fns = {}
-        self._eval3 = None
         self.preds = set()
         self.eval_checked = False
 
@@ -716,19 +811,30 @@ class Gen:
         t = Tr(self, 'eval', node_param='node', node_mode='opaque', node_text='node')
         t.rec_ok = lambda x: None
         txt = t.function(fn, ('i', 64, True))
-        if txt != '(eval2 h fp node false)':
+        if txt != '(eval2 h A node false)':
             raise ExtractError(f'eval is not `return eval2(node, NULL);` but {txt}')
         self.eval_checked = True
 
     def need_pred(self, name):
         self.preds.add(name)
 
-    def eval3_body(self):
-        fn = self.fn('parse.c', 'eval3')
-        if self.params(fn) != [('node', 'Node *'), ('label', 'char ***')]:
-            raise ExtractError('eval3: parameters')
-        t = Tr(self, 'eval3', node_param='node')
-        return t.function(fn, ('i', 64, True))
+    INLINED = {'eval2': ([('node', 'Node *'), ('label', 'char ***')], ('i', 64, True)),
+               'eval3': ([('node', 'Node *'), ('label', 'char ***')], ('i', 64, True)),
+               'eval_double': ([('node', 'Node *')], ('f', 80)),
+               'eval_double2': ([('node', 'Node *')], ('f', 80))}
+
+    def inline(self, name, stack, label_text):
+        """the body of `name` applied to the matched node (pattern mode), as a Lean term of type Except Fail _.
+        `stack`: the functions already being inlined on this node; re-entering one of them is unbounded recursion in C."""
+        if name in stack:
+            chain = ' -> '.join(list(stack[stack.index(name):]) + [name])
+            return f'.error (.crash "unbounded recursion on one node: {chain}")'
+        fn = self.fn('parse.c', name)
+        params, ret = self.INLINED[name]
+        if self.params(fn) != params:
+            raise ExtractError(f'{name}: parameters')
+        t = Tr(self, name, node_param='node', label_text=label_text, stack=stack)
+        return t.function(fn, ret)
 
     def eval_truth_body(self, x):
         fn = self.fn('parse.c', 'eval_truth')
@@ -759,14 +865,20 @@ class Gen:
     # ---------------------------------------------------------------- consumers
     def consumers(self):
         """every place outside the folder where a folded constant is stored: the conversion applied to the int64"""
-        sites = [('declspec', 'align'), ('array_dimensions', 'array_of(len)'), ('enum_specifier', 'val'),
+        sites = [('declspec', 'n'), ('array_dimensions', 'array_of(len)'), ('enum_specifier', 'val'),
                  ('array_designator', '*begin'), ('array_designator', '*end'), ('stmt', 'begin'), ('stmt', 'end'),
-                 ('struct_members', 'mem->bit_width'), ('attribute_list', 'ty->align'),
+                 ('struct_members', 'mem->bit_width'), ('attribute_list', 'n'),
                  ('count_array_init_elements', 'i'), ('write_gvar_data', 'val'), ('write_gvar_data', 'newval')]
-        # declspec: the folded _Alignas operand goes to the local `int align`, then the strictest specifier wins (C11 6.7.5p6)
+        # declspec: the folded _Alignas operand is validated as an int64_t, goes to the local `int align`, then the strictest
+        # specifier wins (C11 6.7.5p6); attribute_list: aligned(n) likewise, 0 requests nothing
         body = re.sub(r'\s+', ' ', function_body(strip_comments(self.src), r'^static\s+Type\s*\*\s*declspec\s*\([^;{]*\)\s*\{', 'declspec'))
-        if 'int align; if (is_typename(tok)) align = typename(&tok, tok)->align; else align = const_expr(&tok, tok); attr->align = MAX(attr->align, align);' not in body:
-            raise ExtractError('declspec: the _Alignas arm no longer stores MAX(attr->align, (int)const_expr)')
+        chk = f'if (n < 0 || n > (1 << 28) || (n & (n - 1))) error_tok(start, "{ALIGN_MSG}");'
+        if ('int align; if (is_typename(tok)) { align = typename(&tok, tok)->align; } else { Token *start = tok; '
+                'int64_t n = const_expr(&tok, tok); ' + chk + ' align = n; } attr->align = MAX(attr->align, align);') not in body:
+            raise ExtractError('declspec: the _Alignas arm no longer validates the int64_t and stores MAX(attr->align, (int)n)')
+        body = re.sub(r'\s+', ' ', function_body(strip_comments(self.src), r'^static\s+Token\s*\*\s*attribute_list\s*\([^;{]*\)\s*\{', 'attribute_list'))
+        if ('Token *start = tok; int64_t n = const_expr(&tok, tok); ' + chk + ' if (n) ty->align = n;') not in body:
+            raise ExtractError('attribute_list: aligned(n) no longer validates the int64_t and stores (int)n')
         found = []
         for fname in sorted({s[0] for s in sites}):
             fn = self.fn('parse.c', fname)
@@ -798,6 +910,34 @@ class Gen:
             if (f[0], f[1]) not in sites:
                 raise ExtractError(f'new consumer of a folded constant in {f[0]}: {f[1]}')
         return found
+
+    def align_check(self, fname):
+        """the condition under which `int64_t n` (the folded alignment) is rejected in `fname`, over `v : BitVec 64`,
+        translated from the typed AST: a Lean term of type Except Fail Bool"""
+        fn = self.fn('parse.c', fname)
+        decls, ifs = [], []
+
+        def walk(n):
+            if not isinstance(n, dict):
+                return
+            if n.get('kind') == 'VarDecl' and n.get('name') == 'n' and n.get('inner'):
+                c = strip(n['inner'][0])
+                if c['kind'] == 'CallExpr' and callee(c) == 'const_expr':
+                    decls.append(n)
+            if n.get('kind') == 'IfStmt' and len(n.get('inner', [])) == 2:
+                c = n['inner'][1]
+                if c.get('kind') == 'CallExpr' and callee(c) == 'error_tok':
+                    m = strip(c['inner'][2], casts=('ArrayToPointerDecay', 'LValueToRValue', 'NoOp'))
+                    if m['kind'] == 'StringLiteral' and json.loads(m['value']) == ALIGN_MSG:
+                        ifs.append(n)
+            for c in n.get('inner', []):
+                walk(c)
+        walk(fn['inner'][-1])
+        if len(decls) != 1 or len(ifs) != 1 or cty_of(decls[0]) != ('i', 64, True):
+            raise ExtractError(f'{fname}: expected one `int64_t n = const_expr(..)` and one alignment check')
+        t = Tr(self, fname, node_mode='opaque')
+        t.locals[decls[0]['id']] = ('v', ('i', 64, True))
+        return re.sub(r'\s*\n\s*', ' ', t.render(t.tr_cond(ifs[0]['inner'][0])))
 
     def walk_consumers(self, n, parents, fname, found):
         if n.get('kind') == 'CallExpr' and callee(n) in ('const_expr', 'eval', 'eval2'):
@@ -841,22 +981,45 @@ class Gen:
                 self.walk_consumers(c, parents + [n], fname, found)
 
     def store_gvar(self):
-        """the scalar tail of write_gvar_data: what is stored for an integer/pointer-typed object"""
+        """the scalar tail of write_gvar_data: what is stored for a floating / an integer- or pointer-typed object"""
         src = strip_comments(read(self.repo, 'parse.c'))
-        m = must(r'char \*\*label = NULL;\s*uint64_t val = eval2\(init->expr, &label\);\s*if \(!label\) \{(.*?)\}\s*Relocation \*rel',
+        m = must(r'if \(!init->expr\)\s*return cur;(.*?)char \*\*label = NULL;\s*uint64_t val = eval2\(init->expr, &label\);\s*if \(!label\) \{(.*?)\}\s*Relocation \*rel',
                  src, 'scalar tail of write_gvar_data', re.S)
-        body = re.sub(r'\s+', ' ', m.group(1)).strip()
+        fl = re.sub(r'\s+', ' ', m.group(1)).strip()
+        wantf = ' '.join(f'if (ty->kind == {k}) {{ *({t} *)(buf + offset) = eval_double(init->expr); return cur; }}'
+                         for k, t in (('TY_FLOAT', 'float'), ('TY_DOUBLE', 'double'), ('TY_LDOUBLE', 'long double')))
+        wantf += (' add_type(init->expr); if (is_flonum(init->expr->ty) && ty->is_unsigned && ty->size == 8) '
+                  '{ write_buf(buf + offset, (uint64_t)eval_double(init->expr), 8); return cur; }')
+        if fl != wantf:
+            raise ExtractError(f'write_gvar_data floating stores changed: {fl}')
+        body = re.sub(r'\s+', ' ', m.group(2)).strip()
         want = ('if (ty->kind == TY_BOOL) val = is_flonum(init->expr->ty) ? eval_double(init->expr) != 0 : val != 0; '
                 'write_buf(buf + offset, val, ty->size); return cur;')
         if body != want:
             raise ExtractError(f'write_gvar_data scalar store changed: {body}')
-        return ('/-- `write_gvar_data`, scalar case without relocation: `val` is `eval2(init->expr, &label)`; conversion to `_Bool`\n'
+        return ('/-- `write_gvar_data`, object of type float / double / long double: `*(T *)(buf + offset) = eval_double(init->expr)`,\n'
+                '    the host conversion of the folded long double to the object type -/\n'
+                'def storeGvarF32 (h : HostMode) (A : FpEnv) (expr : CNode) : Except Fail (BitVec 32) :=\n'
+                '  (evalDouble h A expr) >>= fun d => pure (A.f80to32 d)\n'
+                'def storeGvarF64 (h : HostMode) (A : FpEnv) (expr : CNode) : Except Fail (BitVec 64) :=\n'
+                '  (evalDouble h A expr) >>= fun d => pure (A.f80to64 d)\n'
+                'def storeGvarF80 (h : HostMode) (A : FpEnv) (expr : CNode) : Except Fail (BitVec 80) :=\n'
+                '  (evalDouble h A expr)\n\n'
+                '/-- `write_gvar_data`, scalar case without relocation: `val` is `eval2(init->expr, &label)`; conversion to `_Bool`\n'
                 '    compares with zero, every other type keeps the low `ty->size` bytes (`write_buf`) -/\n'
-                'def storeGvar (fp : FpEnv) (ty : CTy) (expr : CNode) (val : BitVec 64) : Except Fail (BitVec 64) :=\n'
+                'def storeGvar (h : HostMode) (A : FpEnv) (ty : CTy) (expr : CNode) (val : BitVec 64) : Except Fail (BitVec 64) :=\n'
                 '  (if ty.kind == TypeKind.TY_BOOL then\n'
-                '     (CNode.tyOf expr) >>= fun t => if isFlonum t then (fp.neZero expr >>= fun b => pure (boolTo 64 b))\n'
+                '     (CNode.tyOf expr) >>= fun t => if isFlonum t then ((evalDouble h A expr) >>= fun d => pure (boolTo 64 (!(A.eq80 d (A.i32to80 (0#32))))))\n'
                 '                                     else pure (boolTo 64 (val != (0#64)))\n'
-                '   else pure val) >>= fun v => writeBuf v ty.size\n')
+                '   else pure val) >>= fun v => writeBuf v ty.size\n\n'
+                '/-- `write_gvar_data`, object of integer type, the whole scalar path without relocation: a floating initializer of an\n'
+                '    unsigned 8-byte object is converted with `(uint64_t)eval_double(init->expr)`; otherwise `eval2(init->expr, &label)`\n'
+                '    followed by `storeGvar` -/\n'
+                'def storeGvarScalar (h : HostMode) (A : FpEnv) (ty : CTy) (expr : CNode) : Except Fail (BitVec 64) :=\n'
+                '  (CNode.tyOf expr) >>= fun t =>\n'
+                '    if (isFlonum t && ty.isUnsigned) && (ty.size == (8#32)) then\n'
+                '      ((evalDouble h A expr) >>= fun d => (cvtU64 h A d) >>= fun v => writeBuf v (8#32))\n'
+                '    else ((eval2 h A expr true) >>= fun val => storeGvar h A ty expr val)\n')
 
     def write_buf(self):
         src = strip_comments(read(self.repo, 'parse.c'))
@@ -884,12 +1047,9 @@ def generate(repo):
     g = Gen(repo)
     node_kinds = g.enum('NodeKind')
     type_kinds = g.enum('TypeKind')
-    # ---- eval2 (with eval3 and eval_truth inlined: structural recursion over the node)
-    fn2 = g.fn('parse.c', 'eval2')
-    if g.params(fn2) != [('node', 'Node *'), ('label', 'char ***')]:
-        raise ExtractError('eval2: parameters')
-    t2 = Tr(g, 'eval2', node_param='node')
-    eval2_body = t2.function(fn2, ('i', 64, True))
+    # ---- eval2 / evalDouble: the four C functions inlined into two mutually recursive definitions
+    eval2_body = g.inline('eval2', (), 'label')
+    evald_body = g.inline('eval_double', (), 'false')
     # ---- is_const_expr
     fnc = g.fn('parse.c', 'is_const_expr')
     if g.params(fnc) != [('node', 'Node *')]:
@@ -903,46 +1063,70 @@ def generate(repo):
         raise ExtractError(f'const_expr changed: {body}')
     cons = g.consumers()
 
-    out = HEADER.format(tool='consteval.py', src='parse.c (eval, eval2, eval3, eval_truth, is_const_expr, const_expr, write_buf, consumers), type.c (is_integer, is_flonum), chibicc.h (NodeKind, TypeKind)')
-    out += 'import ChibiVerif.Model.HostInt\n'
+    out = HEADER.format(tool='consteval.py', src='parse.c (eval, eval2, eval3, eval_truth, eval_double, eval_double2, is_const_expr, const_expr, write_buf, consumers), type.c (is_integer, is_flonum), chibicc.h (NodeKind, TypeKind)')
+    out += 'import ChibiVerif.Model.HostFp\n'
     out += 'set_option maxRecDepth 4096\nset_option linter.unusedVariables false\n'
     out += 'namespace ChibiVerif.Gen.ConstEval\nopen ChibiVerif.Host\n\n'
     out += '/-- `NodeKind` of chibicc.h -/\ninductive NodeKind where\n' + ''.join(f'  | {k}\n' for k in node_kinds) + '  deriving DecidableEq, Repr\n\n'
     out += '/-- `TypeKind` of chibicc.h -/\ninductive TypeKind where\n' + ''.join(f'  | {k}\n' for k in type_kinds) + '  deriving DecidableEq, Repr\n\n'
     out += ('/-- what the folder reads of a `Type`: kind, size (C `int`), is_unsigned -/\n'
             'structure CTy where\n  kind : TypeKind\n  size : BitVec 32\n  isUnsigned : Bool\n  deriving DecidableEq, Repr\n\n'
-            '/-- what the folder reads of a `Node` (NULL is a constructor: dereferencing it is an explicit crash) -/\n'
-            'inductive CNode where\n  | null\n  | mk (kind : NodeKind) (ty : CTy) (val : BitVec 64) (lhs rhs cond thn els : CNode)\n  deriving Repr\n\n'
+            '/-- what the folder reads of a `Node`: kind, ty, val (`int64_t`), fval (`long double`, as its 80-bit datum), the five\n'
+            '    children (NULL is a constructor: dereferencing it is an explicit crash) -/\n'
+            'inductive CNode where\n  | null\n  | mk (kind : NodeKind) (ty : CTy) (val : BitVec 64) (fval : BitVec 80) (lhs rhs cond thn els : CNode)\n  deriving Repr\n\n'
             '/-- `node->ty` -/\n'
-            'def CNode.tyOf : CNode → Except Fail CTy\n  | .null => .error (.crash "NULL node dereferenced")\n  | .mk _ ty _ _ _ _ _ _ => .ok ty\n\n'
+            'def CNode.tyOf : CNode → Except Fail CTy\n  | .null => .error (.crash "NULL node dereferenced")\n  | .mk _ ty _ _ _ _ _ _ _ => .ok ty\n\n'
             '/-- C truth value of `bool` converted to an integer type -/\n'
             'def boolTo (n : Nat) (b : Bool) : BitVec n := if b then 1#n else 0#n\n\n'
-            '/-- floating evaluation (`eval_double`) is abstract: `toI64 n` is `(int64_t)eval_double(n)`,\n'
-            '    `neZero n` is `eval_double(n) != 0`, `cmp op a b` is `eval_double(a) op eval_double(b)` -/\n'
-            'structure FpEnv where\n  toI64 : CNode → Except Fail (BitVec 64)\n  neZero : CNode → Except Fail Bool\n'
-            '  cmp : String → CNode → CNode → Except Fail Bool\n\n')
+            '/-- the floating arithmetic of the host that runs the folder (Model/HostFp.lean): every floating operation of\n'
+            '    `eval_double` / `eval_double2` / `eval3` is one application of a field -/\n'
+            'abbrev FpEnv := ChibiVerif.Host.HostFp\n\n')
     for name, lean in (('is_integer', 'isInteger'), ('is_flonum', 'isFlonum')):
         if name not in g.preds:
             raise ExtractError(f'{name} is no longer used by the folder')
         out += g.pred(name, lean) + '\n'
-    out += ('/-- parse.c `eval2(node, label)`; `label` is `label != NULL`.  `eval3` and `eval_truth` are inlined so that the\n'
-            '    recursion is structural; `eval(n)` is `eval2 n false`.  `h` selects the host arithmetic (Model/HostInt.lean). -/\n'
-            'def eval2 (h : HostMode) (fp : FpEnv) : CNode → Bool → Except Fail (BitVec 64)\n'
+    out += ('mutual\n'
+            '/-- parse.c `eval2(node, label)`; `label` is `label != NULL`.  `eval3`, `eval_truth` and (for a node of floating type)\n'
+            '    `eval_double` / `eval_double2` are inlined so that the recursion is structural; `eval(n)` is `eval2 n false`.\n'
+            '    `h` selects the host integer arithmetic (Model/HostInt.lean), `A` is the host floating arithmetic. -/\n'
+            'def eval2 (h : HostMode) (A : FpEnv) : CNode → Bool → Except Fail (BitVec 64)\n'
             '  | .null, _ => .error (.crash "NULL node dereferenced")\n'
-            '  | node@(.mk kind ty nval lhs rhs cond thn els), label =>\n    ' + eval2_body + '\n\n')
-    out += '/-- parse.c `eval(node)` -/\ndef eval (h : HostMode) (fp : FpEnv) (node : CNode) : Except Fail (BitVec 64) := eval2 h fp node false\n\n'
-    out += ('/-- parse.c `eval_truth(node)` (this text is what is inlined at its call sites) -/\n'
-            'def evalTruth (h : HostMode) (fp : FpEnv) (node : CNode) : Except Fail Bool :=\n    ' + truth_standalone + '\n\n')
-    out += ('/-- parse.c `is_const_expr(node)` -/\n'
-            'def isConstExpr (h : HostMode) (fp : FpEnv) : CNode → Except Fail Bool\n'
+            '  | .mk kind ty nval nfval lhs rhs cond thn els, label =>\n    ' + eval2_body + '\n\n')
+    out += ('/-- parse.c `eval_double(node)` with `eval_double2` (and, for a node of integer type, `eval` = `eval2`/`eval3`) inlined;\n'
+            '    the result is the `long double` as its 80-bit datum -/\n'
+            'def evalDouble (h : HostMode) (A : FpEnv) : CNode → Except Fail (BitVec 80)\n'
             '  | .null => .error (.crash "NULL node dereferenced")\n'
-            '  | .mk kind ty nval lhs rhs cond thn els =>\n    ' + const_body + '\n\n')
+            '  | .mk kind ty nval nfval lhs rhs cond thn els =>\n    ' + evald_body + '\nend\n\n')
+    out += '/-- parse.c `eval(node)` -/\ndef eval (h : HostMode) (A : FpEnv) (node : CNode) : Except Fail (BitVec 64) := eval2 h A node false\n\n'
+    out += ('/-- parse.c `eval_truth(node)` (this text is what is inlined at its call sites) -/\n'
+            'def evalTruth (h : HostMode) (A : FpEnv) (node : CNode) : Except Fail Bool :=\n    ' + truth_standalone + '\n\n')
+    out += ('/-- parse.c `is_const_expr(node)` -/\n'
+            'def isConstExpr (h : HostMode) (A : FpEnv) : CNode → Except Fail Bool\n'
+            '  | .null => .error (.crash "NULL node dereferenced")\n'
+            '  | .mk kind ty nval nfval lhs rhs cond thn els =>\n    ' + const_body + '\n\n')
     out += g.write_buf() + '\n'
     out += g.store_gvar() + '\n'
     out += '/-- the places where a folded constant is stored, with the conversion applied to the `int64_t` (function, destination, bits, signed) -/\n'
     out += 'def consumers : List (String × String × Nat × Bool) := [\n'
-    out += ',\n'.join(f'  ({json.dumps(f)}, {json.dumps(d)}, {c[1]}, {"true" if c[2] else "false"})' for f, d, c, _ in cons) + ']\n\n'
+    ALIGN = {('declspec', 'n'): 'align', ('attribute_list', 'n'): 'ty->align'}
+    rows = []
+    for f, d, c, _ in cons:
+        if (f, d) in ALIGN:
+            rows.append((f, ALIGN[(f, d)], 32, True))
+        else:
+            rows.append((f, d, c[1], c[2]))
+    out += ',\n'.join(f'  ({json.dumps(f)}, {json.dumps(d)}, {b}, {"true" if sg else "false"})' for f, d, b, sg in rows) + ']\n\n'
     for f, d, c, txt in cons:
-        out += f'/-- `{d}` in `{f}` -/\ndef {lean_name(f, d)} (v : BitVec 64) : BitVec {c[1]} := {txt}\n'
+        if (f, d) in ALIGN:
+            if c != ('i', 64, True) or txt != 'v':
+                raise ExtractError(f'{f}: the folded alignment is no longer kept as an int64_t before the check')
+            nm = lean_name(f, ALIGN[(f, d)])
+            out += (f'/-- `{d}` in `{f}`: the condition under which the folded alignment is rejected -/\n'
+                    f'def reject_{nm[6:]} (h : HostMode) (v : BitVec 64) : Except Fail Bool :=\n  {g.align_check(f)}\n'
+                    f'/-- `{ALIGN[(f, d)]}` in `{f}`: the validated `int64_t` converted to `int` (0 requests nothing) -/\n'
+                    f'def {nm} (h : HostMode) (v : BitVec 64) : Except Fail (BitVec 32) :=\n'
+                    f'  (reject_{nm[6:]} h v) >>= fun bad => if bad then .error (.diag {json.dumps(ALIGN_MSG)}) else pure (castS 32 v)\n')
+        else:
+            out += f'/-- `{d}` in `{f}` -/\ndef {lean_name(f, d)} (v : BitVec 64) : BitVec {c[1]} := {txt}\n'
     out += '\nend ChibiVerif.Gen.ConstEval\n'
     return {'ConstEvalGen.lean': out}
